@@ -29,6 +29,27 @@ protected:
     virtual uint64_t raw(uint64_t n) = 0;
 };
 
+// The bijection on 32-bit values (0 -> 0) TapeSrc applies to tape entries, and its inverse (used to write tapes
+// that decode to given choice indices). Frozen: saved replay tapes depend on it.
+inline uint32_t tapeMix(uint32_t x)
+{
+    x ^= x >> 16;
+    x *= 0x7feb352dU;
+    x ^= x >> 15;
+    x *= 0x846ca68bU;
+    x ^= x >> 16;
+    return x;
+}
+inline uint32_t tapeUnmix(uint32_t x)
+{
+    x ^= x >> 16;
+    x *= 0x43021123U;
+    x ^= x >> 15 ^ x >> 30;
+    x *= 0x1d69e2a5U;
+    x ^= x >> 16;
+    return x;
+}
+
 // Reads a recorded tape; reads past the end return 0 (the simplest choice).
 struct TapeSrc: Src
 {
@@ -49,15 +70,7 @@ protected:
         // rapidcheck's integers are far from uniform modulo small radices (many tiny values and all-ones patterns):
         // mix every non-zero value so that residues are uniform; 0 stays 0, the simplest choice, so shrinking still works.
         if (v != 0) {
-            uint64_t x = v;
-            x ^= x >> 16;
-            x *= 0x7feb352dULL;
-            x &= 0xffffffffULL;
-            x ^= x >> 15;
-            x *= 0x846ca68bULL;
-            x &= 0xffffffffULL;
-            x ^= x >> 16;
-            return x % n;
+            return tapeMix(v) % n;
         }
         return 0;
     }
@@ -115,7 +128,7 @@ struct ExhaustiveSrc: Src
     {
         std::vector<uint32_t> t;
         for (size_t i = 0; i < pos && i < path.size(); ++i) {
-            t.push_back(static_cast<uint32_t>(path[i].v));
+            t.push_back(tapeUnmix(static_cast<uint32_t>(path[i].v))); // so that TapeSrc decodes the same choices
         }
         return t;
     }
